@@ -173,6 +173,7 @@ pub broadcast proof fn ax_sort_usize(o: Seq<usize>, n: Seq<usize>)
         sorted_le(n),
         n.len() == o.len(),
         same_set(o, n),
+        sorted_le(o) ==> n == o,
 {
     admit();
 }
